@@ -1,6 +1,7 @@
 package main
 
 import (
+	"bytes"
 	"flag"
 	"fmt"
 	"os"
@@ -66,11 +67,6 @@ func run() error {
 	for _, w := range warnings {
 		fmt.Fprintf(os.Stderr, "warning: %v\n", w)
 	}
-	out, err := os.Create(*outputFile)
-	if err != nil {
-		return fmt.Errorf("failed to open output file: %w", err)
-	}
-	defer out.Close()
 	importMode := bebop.ImportGenerationModeSeparate
 	if *combinedImports {
 		importMode = bebop.ImportGenerationModeCombined
@@ -84,8 +80,42 @@ func run() error {
 		PrivateDefinitions:        *privateDefinitions,
 		AlwaysUsePointerReceivers: *pointerReceivers,
 	}
+	// generate into memory first: the output file is only touched once there is
+	// something complete to put there
+	out := new(bytes.Buffer)
 	if err := bopf.Generate(out, settings); err != nil {
 		return fmt.Errorf("failed to generate file: %w", err)
 	}
+	if err := writeFileAtomic(*outputFile, out.Bytes()); err != nil {
+		return fmt.Errorf("failed to write output file: %w", err)
+	}
 	return nil
+}
+
+// writeFileAtomic replaces path with data without ever exposing a partial file: the data
+// goes to a temporary file in the same directory which is then renamed over path. If
+// anything fails, path keeps its previous contents.
+func writeFileAtomic(path string, data []byte) error {
+	mode := os.FileMode(0644)
+	if info, err := os.Stat(path); err == nil {
+		mode = info.Mode().Perm()
+	}
+	tmp, err := os.CreateTemp(filepath.Dir(path), "."+filepath.Base(path)+".tmp*")
+	if err != nil {
+		return err
+	}
+	_, err = tmp.Write(data)
+	if err == nil {
+		err = tmp.Chmod(mode)
+	}
+	if closeErr := tmp.Close(); err == nil {
+		err = closeErr
+	}
+	if err == nil {
+		err = os.Rename(tmp.Name(), path)
+	}
+	if err != nil {
+		os.Remove(tmp.Name())
+	}
+	return err
 }
